@@ -150,7 +150,22 @@ func unhx(s string) []byte {
 }
 
 func doRestore(f []string) (string, int) {
-	restoreMs, _ := strconv.ParseInt(f[1], 10, 64)
+	// the restore time: `<ms>` (whole milliseconds, time.UnixMilli) or `<ns>ns` (nanoseconds since the epoch,
+	// time.Unix(0, ns): any sub-millisecond fraction, negative = before 1970)
+	var restoreTo time.Time
+	if strings.HasSuffix(f[1], "ns") {
+		ns, err := strconv.ParseInt(strings.TrimSuffix(f[1], "ns"), 10, 64)
+		if err != nil {
+			panic("bad restore time")
+		}
+		restoreTo = time.Unix(0, ns).UTC()
+	} else {
+		restoreMs, err := strconv.ParseInt(f[1], 10, 64)
+		if err != nil {
+			panic("bad restore time")
+		}
+		restoreTo = time.UnixMilli(restoreMs).UTC()
+	}
 	var parts []int32
 	if f[2] != "*" {
 		for _, p := range strings.Split(f[2], ",") {
@@ -194,7 +209,7 @@ func doRestore(f []string) (string, int) {
 	}
 	res, err := storage.RecoverTopicToTimestamp(context.Background(), s3, storage.TopicRecoveryConfig{
 		SourceNamespace: "ns", SourceTopic: "src", TargetNamespace: "ns", TargetTopic: "dst",
-		RestoreTo: time.UnixMilli(restoreMs).UTC(), Partitions: parts,
+		RestoreTo: restoreTo, Partitions: parts,
 	})
 	var sb strings.Builder
 	if err != nil {
